@@ -37,18 +37,23 @@ def run(tier, seed):
                 lo, hi = lib.ret_rng(p)
                 cands = [v for v in reduce.candidates(p, x, phi)]
                 cands.reverse()
+                # the narrowest intermediate congruent to x modulo phi (any representative will do: the pole set is
+                # {v : v mod phi == pole}, wherever the reduction leaves its window)
                 r = None
                 for v in cands:
                     a, z = st.rng(v)
-                    if 0 <= a and z < phi:
+                    if r is None or z - a < r[1] - r[0]:
                         r = (a, z)
-                        break
+
+                def pole_in(a, z):
+                    k = -(-(a - pole) // phi)      # smallest k with pole + k*phi >= a
+                    return pole + k * phi <= z
                 if lo == hi == M:
                     npole += 1
-                    ok = r is not None and r[0] == r[1] == pole
+                    ok = r is not None and r[0] == r[1] and r[0] % phi == pole
                     why = "returns NaN but the reduced argument ranges over %s (pole %d)" % (r, pole)
                 else:
-                    ok = r is not None and (r[1] < pole or r[0] > pole) and hi < M and lo > -M
+                    ok = r is not None and not pole_in(r[0], r[1]) and hi < M and lo > -M
                     why = "non-NaN path: reduced argument range %s must exclude the pole %d and the result range [%d,%d] must exclude +-NaN" % (r, pole, lo, hi)
                 V.oblige(ok)
                 if not ok:
